@@ -4,7 +4,7 @@
    deep_no_hidden: the same at every depth of object nesting. *)
 From Coq Require Import String List Bool.
 From Verif Require Import Base.ListX Base.Json Base.Free Pub.Events Pub.Calls Pub.Value Pub.Util Pub.SideEffect Pub.BaseActor.
-From Verif Require Import Proofs.HiddenProofs.
+From Verif Require Import Pub.DeliverySpec Proofs.HiddenProofs Proofs.DeliveryProofs.
 Import ListNotations.
 Open Scope string_scope.
 
@@ -38,6 +38,31 @@ Theorem C03_handler : forall fuel v m, v = JObj m -> deep_flat fuel v = true ->
   deep_no_hidden fuel (clear_sensitive fuel v) = true.
 Proof. exact clear_sensitive_ok. Qed.
 
+(* "the hidden recipients still receive the delivery": bto and bcc are among the ids Deliver resolves (the recipients are
+   collected from the UNSTRIPPED activity), so by C02_targets a hidden recipient's inbox is among the inboxes handed over *)
+Theorem C03_hidden_addressed : forall a l h, collect_recipients a = Ok l ->
+  (exists b, ids_of "bto" a = Ok b /\ In h b) \/ (exists b, ids_of "bcc" a = Ok b /\ In h b) -> In h l.
+Proof.
+  intros a l h Hc Hh. unfold collect_recipients in Hc.
+  destruct (ids_of "to" a) as [t|e|p]; try discriminate Hc.
+  destruct (ids_of "bto" a) as [bt|e|p]; try discriminate Hc.
+  destruct (ids_of "cc" a) as [c|e|p]; try discriminate Hc.
+  destruct (ids_of "bcc" a) as [bc|e|p]; try discriminate Hc.
+  destruct (ids_of "audience" a) as [au|e|p]; try discriminate Hc.
+  assert (E : l = (t ++ bt ++ c ++ bc ++ au)%list) by congruence. subst l.
+  destruct Hh as [[b [Eb Hb]]|[b [Eb Hb]]].
+  - assert (b = bt) by congruence. subst b. apply in_or_app. right. apply in_or_app. left. exact Hb.
+  - assert (b = bc) by congruence. subst b. apply in_or_app. right. apply in_or_app. right. apply in_or_app. right. apply in_or_app. left. exact Hb.
+Qed.
+Theorem C03_hidden_receive : forall g a l t h ib, collect_recipients a = Ok l -> spec_targets g a = Ok t ->
+  (exists b, ids_of "bto" a = Ok b /\ In h b) \/ (exists b, ids_of "bcc" a = Ok b /\ In h b) ->
+  is_public h = false -> g_stored_inbox g h = Some ib -> ib <> g_self g -> In ib t.
+Proof.
+  intros g a l t h ib Hc Hs Hh Hp Hi Hn.
+  destruct (spec_targets_char g a l t Hc Hs) as [_ [_ Hiff]]. apply Hiff. split; [exact Hn|].
+  exists h. split; [exact (C03_hidden_addressed a l h Hc Hh)|]. split; [exact Hp|]. left. exact Hi.
+Qed.
+
 Example C03_example :
   let note := JObj [("type", JStr "Note"); ("bto", JStr "https://x.example/a"); ("content", JStr "c")] in
   let act := JObj [("type", JStr "Create"); ("bcc", JStr "https://x.example/b"); ("to", JStr "https://x.example/c"); ("object", note)] in
@@ -49,3 +74,5 @@ Print Assumptions C03_payload.
 Print Assumptions C03_deliver.
 Print Assumptions C03_transport.
 Print Assumptions C03_handler.
+Print Assumptions C03_hidden_addressed.
+Print Assumptions C03_hidden_receive.
